@@ -435,7 +435,7 @@ def run (s : St) : List Op → St × List Out
     (wrong `old`, index out of range) -/
 def applySig (d : List Int) (sig : Sig) : Option (List Int) :=
   match sig.type, sig.old, sig.new, sig.index with
-  | .change, _, .list l, .none => some l
+  | .change, .list o, .list l, .none => if o = d then some l else none
   | .append, .none, .int v, .int i => if i = d.length then some (d ++ [v]) else none
   | .insert, .none, .int v, .int i => some (insertAt d (clampIdx d.length i) v)
   | .remove, .int o, .none, .int i =>
